@@ -299,8 +299,10 @@ static int hkdf_canon(void *o, uint8_t *k)
 static void hkdf_oneshot(int a, uint8_t *out, size_t n) { (void)a; if (XA) ascon_hkdfa(out, n, KEY, 25, NONCE, 9, CUSTOM, 6); else ascon_hkdf(out, n, KEY, 25, NONCE, 9, CUSTOM, 6); }
 static void hkdf_ref(int a, uint8_t *out, size_t n) { (void)a; ref_hkdf(XA, KEY, 25, NONCE, 9, CUSTOM, 6, out, n); }
 /* incremental AEAD encrypt / decrypt */
-static void aead_init(void *o) { api_inc_init[A_alg](o, NONCE, KEY); api_inc_start[A_alg](o, AD, 5); }
-static void aead_reinit(void *o, int v) { (void)v; api_inc_reinit[A_alg](o, NONCE, KEY); api_inc_start[A_alg](o, AD, 5); }
+static int NULLKEY;   /* machine variant ':null': key and nonce given as NULL (documented: all-zero), so that re-initialising a used object must also clear what it held */
+static const uint8_t OTHERKEY[20] = {0xA7, 0xA7, 0xA7, 0xA7, 0xA7, 0xA7, 0xA7, 0xA7, 0xA7, 0xA7, 0xA7, 0xA7, 0xA7, 0xA7, 0xA7, 0xA7, 0xA7, 0xA7, 0xA7, 0xA7};
+static void aead_init(void *o) { if (NULLKEY) memset(o, 0xEE, sizeof(api_inc_state)); api_inc_init[A_alg](o, NULLKEY ? 0 : NONCE, NULLKEY ? 0 : KEY); api_inc_start[A_alg](o, AD, 5); }
+static void aead_reinit(void *o, int v) { (void)v; if (NULLKEY) { api_inc_reinit[A_alg](o, OTHERKEY, OTHERKEY); api_inc_start[A_alg](o, AD, 3); } api_inc_reinit[A_alg](o, NULLKEY ? 0 : NONCE, NULLKEY ? 0 : KEY); api_inc_start[A_alg](o, AD, 5); }
 static void aead_process(void *o, const uint8_t *in, uint8_t *out, size_t n) { if (DEC) api_inc_dec[A_alg](o, in, out, n); else api_inc_enc[A_alg](o, in, out, n); }
 static int aead_final(void *o, uint8_t *out, int a) { if (DEC) return api_inc_decfin[A_alg](o, TAG[a]); api_inc_encfin[A_alg](o, out); return 0; }
 static void aead_free(void *o) { api_inc_free[A_alg](o); }
@@ -347,6 +349,8 @@ int main(int argc, char **argv)
         m.init = hkdf_init; m.squeeze = hkdf_squeeze; m.freef = hkdf_free; m.canon = hkdf_canon; m.oneshot = hkdf_oneshot; m.refshot = hkdf_ref;
     } else if (!strncmp(base, "enc", 3) || !strncmp(base, "dec", 3)) {
         DEC = base[0] == 'd'; A_alg = !strcmp(base + 3, "128") ? 0 : !strcmp(base + 3, "128a") ? 1 : 2;
+        NULLKEY = colon && !strcmp(colon + 1, "null");
+        if (NULLKEY) { /* make the object hold another key first: the harness's own "fresh" object starts from storage that held a keyed state */ memset(KEY, 0, sizeof KEY); memset(NONCE, 0, 16); }
         int r = ref_rate(A_alg); m = mk(mn, r, r); m.has_absorb = 1; m.transducer = 1; m.has_inplace = 1; m.terminal = 1; m.final_len = 16; m.n_reinit = 1;
         m.init = aead_init; m.reinit = aead_reinit; m.absorb = aead_process; m.final = aead_final; m.freef = aead_free; m.canon = aead_canon;
     } else { fprintf(stderr, "unknown machine %s\n", mn); return 2; }
